@@ -59,19 +59,18 @@ pub fn run<D: Dec>(rep: &mut Report) {
             rep.evaluations += 2;
             let rm = decode::<D>(&mk);
             let rb = decode::<D>(&bk);
-            let (rm, rb) = match (rm, rb) {
-                (Ok(a), Ok(b)) => (a, b),
-                (a, b) => {
-                    rep.panics += 1;
-                    let p = a.err().or(b.err()).unwrap_or_default();
-                    rep.violate(
-                        format!("C19|{}|ctx={}|code=0x{:02X}|panic|{}", set_name(set), cname, code, panic_sig(&p)),
-                        format!("{}: decoding [{}] / [{}] panicked: {}", set_name(set), hex_bytes(&mk), hex_bytes(&bk), p),
-                        replay(set, &[&mk, &bk], "no panic", "PANIC"),
-                    );
-                    continue;
+            // a panicking decode is "no key event" for this property (the panic itself is C08's matter)
+            let unpack = |r: Result<(Res, usize), String>, n: &mut u64| match r {
+                Ok(x) => x,
+                Err(_) => {
+                    *n += 1;
+                    (Err(pc_keyboard::Error::UnknownKeyCode), 0)
                 }
             };
+            let mut panicked = 0u64;
+            let rm = unpack(rm, &mut panicked);
+            let rb = unpack(rb, &mut panicked);
+            rep.panics += panicked;
             // a sequence is "complete" only if every byte before the last returned None
             if rm.1 > 0 || rb.1 > 0 || (matches!(rm.0, Ok(None)) && matches!(rb.0, Ok(None))) {
                 incomplete += 1;
@@ -131,6 +130,80 @@ pub fn run<D: Dec>(rep: &mut Report) {
             }
         }
     }
+    // ---- with history: press then release on the same decoder, and every ordered pair of distinct complete
+    //      make sequences on one decoder must still denote distinct keys
+    let makes: Vec<(KeyCode, Vec<u8>)> = downs.iter().flat_map(|(k, v)| v.iter().map(move |s| (*k, s.clone()))).collect();
+    let brk_of = |mk: &Vec<u8>| -> Vec<u8> {
+        let mut b = mk.clone();
+        let code = b.pop().unwrap();
+        if set == 1 {
+            b.push(code | 0x80);
+        } else {
+            b.push(0xF0);
+            b.push(code);
+        }
+        b
+    };
+    let run_on = |d: &mut D, seq: &[u8]| -> Res {
+        let mut last = Ok(None);
+        for b in seq {
+            last = d.advance_state(*b);
+        }
+        last
+    };
+    let mut hist_pairs = 0u64;
+    for (k1, s1) in makes.iter() {
+        // press, then release, one decoder
+        let r = guarded(|| {
+            let mut d = D::fresh();
+            let a = run_on(&mut d, s1);
+            let b = run_on(&mut d, &brk_of(s1));
+            (a, b)
+        });
+        rep.evaluations += 1;
+        if let Ok((a, b)) = &r {
+            let up = matches!(b, Ok(Some(e)) if e.state == KeyState::Up && e.code == *k1);
+            if !up {
+                rep.violate(
+                    format!("C19|{}|press-then-release|seq=[{}]|press={}|release={}", set_name(set), hex_bytes(s1), res_str(a), res_str(b)),
+                    format!("{}: [{}] pressed {:?}, but its break form fed to the same decoder right after gave {}", set_name(set), hex_bytes(s1), k1, res_str(b)),
+                    replay(set, &[s1, &brk_of(s1)], &format!("Up({:?})", k1), &res_str(b)),
+                );
+            }
+        }
+        for (k2, s2) in makes.iter() {
+            if s1 == s2 {
+                continue;
+            }
+            let r = guarded(|| {
+                let mut d = D::fresh();
+                let a = run_on(&mut d, s1);
+                let b = run_on(&mut d, s2);
+                (a, b)
+            });
+            hist_pairs += 1;
+            rep.evaluations += 1;
+            if let Ok((Ok(Some(e1)), Ok(Some(e2)))) = &r {
+                if e1.code == e2.code && e1.state == KeyState::Down && e2.state == KeyState::Down {
+                    rep.violate(
+                        format!("C19|{}|dup-press-with-history|key={:?}|seqs=[{}],[{}]", set_name(set), e1.code, hex_bytes(s1), hex_bytes(s2)),
+                        format!(
+                            "{}: the distinct sequences [{}] and [{}], fed one after the other, both decode as a press of {:?} (alone they denote {:?} and {:?})",
+                            set_name(set),
+                            hex_bytes(s1),
+                            hex_bytes(s2),
+                            e1.code,
+                            k1,
+                            k2
+                        ),
+                        replay(set, &[s1, s2], "distinct keys", &format!("both {:?}", e1.code)),
+                    );
+                }
+            }
+        }
+    }
+    rep.count(&format!("{}_ordered_pairs_of_distinct_make_sequences_on_one_decoder", set_name(set)), hist_pairs);
+
     for (dir, map) in [("press", &downs), ("release", &ups)] {
         for (k, seqs) in map.iter() {
             if seqs.len() > 1 {
